@@ -29,6 +29,22 @@ Proof.
   destruct (nth_error m i) eqn:E; eauto. apply nth_error_None in E. lia.
 Qed.
 
+Lemma list_eq_nth_error {A} (l m : list A) : (forall i, nth_error l i = nth_error m i) -> l = m.
+Proof.
+  revert m. induction l as [|a l IH]; intros [|b m] H; auto.
+  - specialize (H 0%nat). discriminate.
+  - specialize (H 0%nat). discriminate.
+  - pose proof (H 0%nat) as H0. cbn in H0. injection H0 as ->. f_equal. apply IH. intros i. apply (H (S i)).
+Qed.
+
+Lemma first_some_none {A} (l : list (option A)) : first_some l = None -> forall i x, nth_error l i = Some x -> x = None.
+Proof.
+  induction l as [|[a|] l IH]; intros H i x Hi.
+  - destruct i; discriminate.
+  - discriminate.
+  - destruct i; cbn in Hi; [now injection Hi as <-|]. eapply IH; eauto.
+Qed.
+
 (* ---------- cells that already have the column type ---------- *)
 Definition int_cell (c : cell) : Prop := match c with CNull | CInt _ => True | _ => False end.
 
@@ -48,6 +64,60 @@ Qed.
 
 Lemma cells_int r : Forall int_cell (cells r).
 Proof. induction r; cbn; constructor; auto. apply int_cell_of_opt. Qed.
+
+Lemma convert_cells r : map convert (cells r) = r.
+Proof. unfold cells. induction r as [|x r IH]; cbn; auto. now rewrite convert_cell_of_opt, IH. Qed.
+
+(* ---------- the per-column conversion ---------- *)
+(* without IGNORE a conversion that does not fail changes nothing on a value of the column's type *)
+Lemma conv_strict ty c : int_cell c -> conv_err false ty c = None -> conv_val false ty c = convert c.
+Proof.
+  destruct c; cbn; intros Hi H; try contradiction; auto.
+  unfold conv_err, conv_val in *. cbn in *. unfold conv_range in *. destruct (in_range ty z); cbn in *; auto; discriminate.
+Qed.
+
+Lemma conv_val_not_none ign ty c : c <> CNull -> conv_err ign ty c = None -> conv_val ign ty c <> None.
+Proof.
+  unfold conv_err, conv_val. destruct c; cbn; try congruence; unfold conv_range;
+    repeat match goal with |- context [if ?b then _ else _] => destruct b end; cbn; congruence.
+Qed.
+
+Lemma convert_row_nth ign sch row r :
+  convert_row ign sch row = inl r ->
+  forall i, nth_error r i =
+    match nth_error sch i, nth_error row i with
+    | Some c, Some x => Some (conv_val ign (cty c) x) | _, _ => None end.
+Proof.
+  unfold convert_row. destruct (first_some _); [discriminate|]. intros H i. injection H as <-. apply map2_nth_error.
+Qed.
+
+Lemma convert_row_noerr ign sch row r :
+  convert_row ign sch row = inl r ->
+  forall i c x, nth_error sch i = Some c -> nth_error row i = Some x -> conv_err ign (cty c) x = None.
+Proof.
+  unfold convert_row. destruct (first_some _) eqn:E; [discriminate|]. intros _ i c x Hs Hr.
+  apply (first_some_none _ E i). now rewrite map2_nth_error, Hs, Hr.
+Qed.
+
+Lemma convert_row_length ign sch row r :
+  length row = length sch -> convert_row ign sch row = inl r -> length r = length sch.
+Proof.
+  unfold convert_row. destruct (first_some _); [discriminate|]. intros HL H. injection H as <-.
+  now apply map2_length.
+Qed.
+
+Lemma convert_row_strict sch row r :
+  length row = length sch -> Forall int_cell row -> convert_row false sch row = inl r -> r = map convert row.
+Proof.
+  intros HL Hint H. apply list_eq_nth_error. intros i.
+  rewrite (convert_row_nth _ _ _ _ H i), nth_error_map.
+  destruct (nth_error row i) as [x|] eqn:Er.
+  - destruct (nth_error_same_length row sch i x HL Er) as [c Hc]. rewrite Hc. cbn. f_equal.
+    apply conv_strict.
+    + rewrite Forall_forall in Hint. apply Hint. eapply nth_error_In; eauto.
+    + eapply convert_row_noerr; eauto.
+  - destruct (nth_error sch i); reflexivity.
+Qed.
 
 (* ---------- validateNullability, pointwise ---------- *)
 Lemma nullability_nth ign : forall sch row row',
@@ -98,14 +168,6 @@ Proof.
   exfalso. eapply (nullability_strict sch row row' H i c CNull); eauto.
 Qed.
 
-Lemma list_eq_nth_error {A} (l m : list A) : (forall i, nth_error l i = nth_error m i) -> l = m.
-Proof.
-  revert m. induction l as [|a l IH]; intros [|b m] H; auto.
-  - specialize (H 0%nat). discriminate.
-  - specialize (H 0%nat). discriminate.
-  - pose proof (H 0%nat) as H0. cbn in H0. injection H0 as ->. f_equal. apply IH. intros i. apply (H (S i)).
-Qed.
-
 Lemma nullability_strict_id sch row row' :
   length row = length sch -> nullability false sch row = Some row' -> row' = row.
 Proof.
@@ -114,8 +176,18 @@ Proof.
   apply nth_error_None in E. symmetry. apply nth_error_None. lia.
 Qed.
 
-(* ---------- terms that only read base (non-generated) columns ---------- *)
-(* every column a term reads satisfies P *)
+Lemma nullability_length ign : forall sch row row',
+  length row = length sch -> nullability ign sch row = Some row' -> length row' = length sch.
+Proof.
+  induction sch as [|c sch IH]; intros [|x row] row' HL H; cbn in *; try discriminate.
+  - now injection H as <-.
+  - destruct (nullability ign sch row) as [rest|] eqn:E; [|discriminate].
+    assert (length rest = length sch) by (eapply IH; eauto; lia).
+    destruct x; try (injection H as <-; cbn; lia).
+    destruct (notnull c); [destruct ign; [injection H as <-; cbn; lia|discriminate]|injection H as <-; cbn; lia].
+Qed.
+
+(* ---------- terms and the second pass ---------- *)
 Fixpoint term_all (P : nat -> Prop) (e : term) : Prop :=
   match e with
   | TCol i => P i
@@ -135,14 +207,9 @@ Proof.
   - destruct H. now rewrite IHa, IHb.
 Qed.
 
-(* column j of the schema is not a generated column (or does not exist) *)
-Definition base_col (sch : list col) (j : nat) : Prop :=
-  match nth_error sch j with Some c => gen c = None | None => True end.
-
-(* a generated column reads base columns and EARLIER generated columns only *)
-Definition wf_schema (sch : list col) : Prop :=
-  forall i c e, nth_error sch i = Some c -> gen c = Some e ->
-    term_all (fun j => (j < i)%nat \/ base_col sch j) e.
+(* position j is not filled by the second pass *)
+Definition free_at (full : list (option term)) (j : nat) : Prop :=
+  match nth_error full j with Some (Some _) => False | _ => True end.
 
 Lemma set_nth_length {A} i (x : A) l : length (set_nth i x l) = length l.
 Proof. revert i. induction l as [|a l IH]; intros [|i]; cbn; auto. Qed.
@@ -155,90 +222,197 @@ Qed.
 Lemma set_nth_same {A} i (x : A) l : (i < length l)%nat -> nth_error (set_nth i x l) i = Some x.
 Proof. revert i. induction l as [|a l IH]; intros [|i] H; cbn in *; try lia; auto. apply IH. lia. Qed.
 
+Lemma set_nth_id {A} i (x : A) l : nth_error l i = Some x -> set_nth i x l = l.
+Proof. revert i. induction l as [|a l IH]; intros [|i] H; cbn in *; try discriminate; [congruence|]. f_equal. auto. Qed.
+
 Lemma set_nth_int i v (row : list cell) : int_cell v -> Forall int_cell row -> Forall int_cell (set_nth i v row).
 Proof.
   intros Hv H. revert i. induction H as [|a l Ha Hl IH]; intros [|i]; cbn; auto.
 Qed.
 
-Lemma fill_gen_from_length sch : forall i row, length (fill_gen_from sch i row) = length row.
+Lemma fill_from_length pend : forall i row, length (fill_from pend i row) = length row.
 Proof.
-  induction sch as [|c sch IH]; intros i row; cbn; auto.
-  rewrite IH. destruct (gen c); auto. apply set_nth_length.
+  induction pend as [|p pend IH]; intros i row; cbn; auto.
+  rewrite IH. destruct p; auto. apply set_nth_length.
 Qed.
 
-Lemma fill_gen_from_int sch : forall i row, Forall int_cell row -> Forall int_cell (fill_gen_from sch i row).
+Lemma fill_from_int pend : forall i row, Forall int_cell row -> Forall int_cell (fill_from pend i row).
 Proof.
-  induction sch as [|c sch IH]; intros i row H; cbn; auto.
-  apply IH. destruct (gen c); auto. apply set_nth_int; auto. apply int_cell_of_opt.
+  induction pend as [|p pend IH]; intros i row H; cbn; auto.
+  apply IH. destruct p; auto. apply set_nth_int; auto. apply int_cell_of_opt.
 Qed.
 
-(* the main invariant: full = pre ++ sch, the columns of pre (indices < i) are already final *)
-Lemma fill_gen_from_spec full : forall sch pre i row,
-  full = pre ++ sch -> length pre = i ->
-  let final := fill_gen_from sch i row in
-  (forall j, (j < i)%nat \/ base_col full j -> nth_error final j = nth_error row j) /\
-  (forall k c e, nth_error sch k = Some c -> gen c = Some e ->
-     term_all (fun j => (j < i + k)%nat \/ base_col full j) e -> (i + k < length row)%nat ->
+(* the main invariant: full = pre ++ pend, the positions of pre (indices < i) are already final *)
+Lemma fill_from_spec full : forall pend pre i row,
+  full = pre ++ pend -> length pre = i ->
+  let final := fill_from pend i row in
+  (forall j, (j < i)%nat \/ free_at full j -> nth_error final j = nth_error row j) /\
+  (forall k e, nth_error pend k = Some (Some e) ->
+     term_all (fun j => (j < i + k)%nat \/ free_at full j) e -> (i + k < length row)%nat ->
      nth (i + k) final CNull = cell_of_opt (eval_term final e)).
 Proof.
-  induction sch as [|c sch IH]; intros pre i row Hf Hl; cbn zeta.
-  - cbn. split; auto. intros k c e H. destruct k; discriminate.
-  - cbn [fill_gen_from].
-    set (row' := match gen c with Some e => set_nth i (cell_of_opt (eval_term row e)) row | None => row end).
-    assert (Hf' : full = (pre ++ [c]) ++ sch) by (rewrite <- app_assoc; exact Hf).
-    assert (Hl' : length (pre ++ [c]) = S i) by (rewrite app_length; cbn; lia).
-    destruct (IH (pre ++ [c]) (S i) row' Hf' Hl') as [I2 I3].
-    assert (Hci : nth_error full i = Some c).
+  induction pend as [|p pend IH]; intros pre i row Hf Hl; cbn zeta.
+  - cbn. split; auto. intros k e H. destruct k; discriminate.
+  - cbn [fill_from].
+    set (row' := match p with Some e => set_nth i (cell_of_opt (eval_term row e)) row | None => row end).
+    assert (Hf' : full = (pre ++ [p]) ++ pend) by (rewrite <- app_assoc; exact Hf).
+    assert (Hl' : length (pre ++ [p]) = S i) by (rewrite app_length; cbn; lia).
+    destruct (IH (pre ++ [p]) (S i) row' Hf' Hl') as [I2 I3].
+    assert (Hci : nth_error full i = Some p).
     { rewrite Hf, nth_error_app2 by lia. replace (i - length pre)%nat with 0%nat by lia. reflexivity. }
-    (* row' agrees with row away from i, and at base columns *)
-    assert (Hrow' : forall j, (j < i)%nat \/ base_col full j -> nth_error row' j = nth_error row j).
-    { intros j Hj. unfold row'. destruct (gen c) as [e0|] eqn:Eg; auto.
-      apply set_nth_other. destruct Hj as [Hj|Hj]; [lia|]. intros ->. unfold base_col in Hj. rewrite Hci in Hj. congruence. }
+    assert (Hrow' : forall j, (j < i)%nat \/ free_at full j -> nth_error row' j = nth_error row j).
+    { intros j Hj. unfold row'. destruct p as [e0|] eqn:Eg; auto.
+      apply set_nth_other. destruct Hj as [Hj|Hj]; [lia|]. intros ->. unfold free_at in Hj. now rewrite Hci in Hj. }
     split.
     + intros j Hj. rewrite I2; [now apply Hrow'|]. destruct Hj; [left; lia|now right].
-    + intros k c0 e Hk Hg Hrefs Hlt. destruct k as [|k].
-      * cbn in Hk. injection Hk as <-. rewrite Nat.add_0_r in *.
+    + intros k e Hk Hrefs Hlt. destruct k as [|k].
+      * cbn in Hk. injection Hk as ->. rewrite Nat.add_0_r in *.
         assert (Hrow'i : nth_error row' i = Some (cell_of_opt (eval_term row e))).
-        { unfold row'. rewrite Hg. now apply set_nth_same. }
+        { unfold row'. now apply set_nth_same. }
         rewrite nth_as_error, I2 by (left; lia). rewrite Hrow'i. f_equal.
         apply eval_term_ext. eapply term_all_impl; [|exact Hrefs]. cbn beta. intros j Hj.
         rewrite !nth_as_error. rewrite I2 by (destruct Hj; [left; lia|now right]). now rewrite Hrow'.
       * replace (i + S k)%nat with (S i + k)%nat in * by lia.
-        apply (I3 k c0 e Hk Hg Hrefs). unfold row'. destruct (gen c); [rewrite set_nth_length|]; exact Hlt.
+        apply (I3 k e Hk Hrefs). unfold row'. destruct p; [rewrite set_nth_length|]; exact Hlt.
 Qed.
 
-Lemma fill_generated_base sch row i c :
-  nth_error sch i = Some c -> gen c = None -> nth_error (fill_generated sch row) i = nth_error row i.
+(* a row in which every pending position already holds its value is left alone *)
+Lemma fill_from_fixed : forall pend i row,
+  (forall k e, nth_error pend k = Some (Some e) -> nth_error row (i + k) = Some (cell_of_opt (eval_term row e))) ->
+  fill_from pend i row = row.
 Proof.
-  intros Hs Hg. unfold fill_generated.
-  destruct (fill_gen_from_spec sch sch [] 0%nat row eq_refl eq_refl) as [H _].
-  apply H. right. unfold base_col. now rewrite Hs.
+  induction pend as [|p pend IH]; intros i row H; cbn; auto.
+  assert (Hp : match p with Some e => set_nth i (cell_of_opt (eval_term row e)) row | None => row end = row).
+  { destruct p as [e|]; auto. apply set_nth_id. specialize (H 0%nat e eq_refl). now rewrite Nat.add_0_r in H. }
+  rewrite Hp. apply IH. intros k e Hk. specialize (H (S k) e Hk). now replace (S i + k)%nat with (i + S k)%nat by lia.
 Qed.
 
-Lemma fill_generated_length sch row : length row = length sch -> length (fill_generated sch row) = length sch.
-Proof. intros H. unfold fill_generated. now rewrite fill_gen_from_length. Qed.
+(* what a well-formed pending list is: every expression reads earlier positions or positions that are not pending *)
+Definition wf_pend (pend : list (option term)) : Prop :=
+  forall i e, nth_error pend i = Some (Some e) -> term_all (fun j => (j < i)%nat \/ free_at pend j) e.
 
-Lemma fill_generated_int sch row : Forall int_cell row -> Forall int_cell (fill_generated sch row).
-Proof. apply fill_gen_from_int. Qed.
+Definition row_pending_ok (pend : list (option term)) (r : list (option Z)) : Prop :=
+  forall i e, nth_error pend i = Some (Some e) -> nth i r None = eval_term (cells r) e.
 
-(* a row produced by fill_generated satisfies "generated = expression" *)
-Lemma fill_generated_ok sch row :
-  wf_schema sch -> length row = length sch -> Forall int_cell row ->
-  row_generated_ok sch (map convert (fill_generated sch row)).
+Lemma fill_from_ok pend row :
+  wf_pend pend -> length row = length pend -> Forall int_cell row ->
+  row_pending_ok pend (map convert (fill_from pend 0 row)).
 Proof.
-  intros Hwf HL Hint i c e Hs Hg.
-  rewrite cells_convert by (now apply fill_generated_int).
-  destruct (fill_gen_from_spec sch sch [] 0%nat row eq_refl eq_refl) as [_ H].
+  intros Hwf HL Hint i e Hp.
+  rewrite cells_convert by (now apply fill_from_int).
+  destruct (fill_from_spec pend pend [] 0%nat row eq_refl eq_refl) as [_ H].
   assert (Hlt : (i < length row)%nat) by (rewrite HL; eapply nth_error_some_lt; eauto).
-  specialize (H i c e Hs Hg (Hwf i c e Hs Hg) Hlt). cbn in H. fold (fill_generated sch row) in H.
-  assert (Hn : nth i (map convert (fill_generated sch row)) None = convert (nth i (fill_generated sch row) CNull)).
-  { rewrite !nth_as_error, nth_error_map. destruct (nth_error (fill_generated sch row) i); reflexivity. }
+  specialize (H i e Hp (Hwf i e Hp) Hlt). cbn in H.
+  assert (Hn : nth i (map convert (fill_from pend 0 row)) None = convert (nth i (fill_from pend 0 row) CNull)).
+  { rewrite !nth_as_error, nth_error_map. destruct (nth_error (fill_from pend 0 row) i); reflexivity. }
   rewrite Hn, H. apply convert_cell_of_opt.
+Qed.
+
+Lemma fill_from_free pend row j : free_at pend j -> nth_error (fill_from pend 0 row) j = nth_error row j.
+Proof.
+  intros H. destruct (fill_from_spec pend pend [] 0%nat row eq_refl eq_refl) as [H1 _]. apply H1. now right.
+Qed.
+
+(* ---------- schemas ---------- *)
+(* a column that the second pass never fills: no generated expression, no expression default *)
+Definition plain_col (sch : list col) (j : nat) : Prop :=
+  match nth_error sch j with
+  | Some c => gen c = None /\ match dflt c with DExpr _ => False | _ => True end
+  | None => True
+  end.
+
+(* generated columns and expression defaults read earlier columns and plain columns only *)
+Definition wf_schema (sch : list col) : Prop :=
+  forall i c e, nth_error sch i = Some c -> (gen c = Some e \/ dflt c = DExpr e) ->
+    term_all (fun j => (j < i)%nat \/ plain_col sch j) e.
+
+(* the three pending lists of the model *)
+Definition virt_pend (sch : list col) : list (option term) := map (fun c => if virt c then gen c else None) sch.
+
+Lemma wf_pend_gen sch : wf_schema sch -> wf_pend (map gen sch).
+Proof.
+  intros Hwf i e Hp. rewrite nth_error_map in Hp. destruct (nth_error sch i) as [c|] eqn:Ec; [|discriminate].
+  cbn in Hp. injection Hp as Hg. eapply term_all_impl; [|apply (Hwf i c e Ec); now left].
+  cbn beta. intros j [Hj|Hj]; [now left|right]. unfold free_at, plain_col in *. rewrite nth_error_map.
+  destruct (nth_error sch j) as [cj|]; cbn; auto. destruct Hj as [-> _]. exact I.
+Qed.
+
+Lemma wf_pend_virt sch : wf_schema sch -> wf_pend (virt_pend sch).
+Proof.
+  intros Hwf i e Hp. unfold virt_pend in Hp. rewrite nth_error_map in Hp.
+  destruct (nth_error sch i) as [c|] eqn:Ec; [|discriminate]. cbn in Hp.
+  destruct (virt c); [|discriminate]. injection Hp as Hg.
+  eapply term_all_impl; [|apply (Hwf i c e Ec); now left].
+  cbn beta. intros j [Hj|Hj]; [now left|right]. unfold free_at, plain_col, virt_pend in *. rewrite nth_error_map.
+  destruct (nth_error sch j) as [cj|]; cbn; auto. destruct Hj as [-> _]. now destruct (virt cj).
+Qed.
+
+Lemma pend_ins_nth sch rs i :
+  nth_error (map2 pend_ins sch rs) i =
+  match nth_error sch i, nth_error rs i with Some c, Some r => Some (pend_ins c r) | _, _ => None end.
+Proof. apply map2_nth_error. Qed.
+
+Lemma wf_pend_ins sch rs : wf_schema sch -> wf_pend (map2 pend_ins sch rs).
+Proof.
+  intros Hwf i e Hp. rewrite pend_ins_nth in Hp. destruct (nth_error sch i) as [c|] eqn:Ec; [|discriminate].
+  destruct (nth_error rs i) as [r|]; [|discriminate]. injection Hp as Hp.
+  assert (Hge : gen c = Some e \/ dflt c = DExpr e).
+  { unfold pend_ins in Hp. destruct r; try discriminate. destruct (gen c); [left; congruence|].
+    destruct (dflt c); try discriminate. right. congruence. }
+  eapply term_all_impl; [|apply (Hwf i c e Ec Hge)].
+  cbn beta. intros j [Hj|Hj]; [now left|right]. unfold free_at, plain_col in *. rewrite pend_ins_nth.
+  destruct (nth_error sch j) as [cj|]; cbn; auto. destruct (nth_error rs j) as [rj|]; auto.
+  destruct Hj as [Hg Hd]. unfold pend_ins. destruct rj; auto. rewrite Hg. destruct (dflt cj); auto.
 Qed.
 
 (* ---------- the property of a stored row ---------- *)
 Definition row_ok (sch : list col) (chks : list check) (r : list (option Z)) : Prop :=
   length r = length sch /\ row_checks_ok chks r /\ row_notnull_ok sch r /\ row_generated_ok sch r.
+
+Lemma generated_ok_of_pending sch r : row_pending_ok (map gen sch) r -> row_generated_ok sch r.
+Proof. intros H i c e Hs Hg. apply H. now rewrite nth_error_map, Hs, <- Hg. Qed.
+
+Lemma fill_generated_length sch row : length (fill_generated sch row) = length row.
+Proof. apply fill_from_length. Qed.
+
+Lemma fill_generated_int sch row : Forall int_cell row -> Forall int_cell (fill_generated sch row).
+Proof. apply fill_from_int. Qed.
+
+Lemma fill_generated_ok sch row :
+  wf_schema sch -> length row = length sch -> Forall int_cell row ->
+  row_generated_ok sch (map convert (fill_generated sch row)).
+Proof.
+  intros Hwf HL Hint. apply generated_ok_of_pending. apply fill_from_ok; auto.
+  - now apply wf_pend_gen.
+  - now rewrite map_length.
+Qed.
+
+(* reading the virtual columns back changes nothing when the generated columns already equal their expressions *)
+Lemma refresh_virtual_id sch r :
+  length r = length sch -> row_generated_ok sch r -> refresh_virtual sch r = r.
+Proof.
+  intros HL Hg. unfold refresh_virtual. fold (cells r). fold (virt_pend sch).
+  rewrite fill_from_fixed; [apply convert_cells|].
+  intros k e Hk. cbn. unfold virt_pend in Hk. rewrite nth_error_map in Hk.
+  destruct (nth_error sch k) as [c|] eqn:Ec; [|discriminate]. cbn in Hk.
+  destruct (virt c); [|discriminate]. injection Hk as Hge.
+  rewrite <- (Hg k c e Ec Hge). unfold cells. rewrite nth_error_map, nth_as_error.
+  assert (Hlt : (k < length r)%nat) by (rewrite HL; eapply nth_error_some_lt; eauto).
+  destruct (nth_error r k) eqn:Er; [reflexivity|]. apply nth_error_None in Er. lia.
+Qed.
+
+Lemma refresh_virtual_length sch r : length (refresh_virtual sch r) = length r.
+Proof. unfold refresh_virtual. now rewrite map_length, fill_from_length, map_length. Qed.
+
+(* a column that is not a virtual generated column is read back as stored *)
+Lemma refresh_virtual_other sch r i c :
+  nth_error sch i = Some c -> (virt c = false \/ gen c = None) ->
+  nth_error (refresh_virtual sch r) i = nth_error r i.
+Proof.
+  intros Hs Hv. unfold refresh_virtual. rewrite nth_error_map, fill_from_free.
+  - rewrite nth_error_map. destruct (nth_error r i); cbn; auto. now rewrite convert_cell_of_opt.
+  - unfold free_at. rewrite nth_error_map, Hs. cbn. destruct Hv as [-> | ->]; auto. now destruct (virt c).
+Qed.
 
 Lemma checks_pass_ok chks row :
   Forall int_cell row -> existsb (check_false row) chks = false -> row_checks_ok chks (map convert row).
@@ -257,10 +431,14 @@ Proof.
 Qed.
 
 (* ---------- INSERT of values that already have the column type ---------- *)
-Definition typed_raw (r : raw) : Prop := match r with RStrI _ | RStrF _ => False | _ => True end.
+Definition typed_raw (r : raw) : Prop := match r with RStrI _ | RStrF _ | RBad _ => False | _ => True end.
+
+(* a row of an INSERT the typed theorems speak about: one value per column, no strings, DEFAULT in the generated columns *)
+Definition typed_row (sch : list col) (rs : list raw) : Prop :=
+  length rs = length sch /\ Forall typed_raw rs /\ existsb (fun b => b) (map2 explicit_gen sch rs) = false.
 
 Lemma cell_of_raw_int c r : typed_raw r -> int_cell (cell_of_raw c r).
-Proof. destruct r; cbn; intros H; auto; try contradiction. apply int_cell_of_opt. Qed.
+Proof. destruct r; cbn; intros H; auto; try contradiction. destruct (dflt c); exact I. Qed.
 
 Lemma base_row_int sch rs : Forall typed_raw rs -> Forall int_cell (map2 cell_of_raw sch rs).
 Proof.
@@ -270,50 +448,145 @@ Proof.
   apply cell_of_raw_int. rewrite Forall_forall in H. apply H. eapply nth_error_In; eauto.
 Qed.
 
-Theorem insert_typed_row_ok sch chks rs r :
-  wf_schema sch -> length rs = length sch -> Forall typed_raw rs ->
-  insert_row false sch chks rs = Stored r -> row_ok sch chks r.
+Lemma existsb_id_false (l : list bool) : existsb (fun b => b) l = false -> forall i x, nth_error l i = Some x -> x = false.
 Proof.
-  intros Hwf HL Ht H. unfold insert_row, source_row in H.
-  set (base := map2 cell_of_raw sch rs) in *.
-  assert (HLb : length base = length sch) by (unfold base; rewrite map2_length; auto).
-  assert (Hib : Forall int_cell base) by (now apply base_row_int).
-  assert (HL0 : length (fill_generated sch base) = length sch) by (now apply fill_generated_length).
-  destruct (nullability false sch (fill_generated sch base)) as [row1|] eqn:En; [|discriminate].
-  pose proof (nullability_strict_id _ _ _ HL0 En) as ->.
-  destruct (existsb (check_false (fill_generated sch base)) chks) eqn:Ec; [discriminate|].
-  injection H as <-. split; [|split; [|split]].
-  - now rewrite map_length.
-  - apply checks_pass_ok; auto. now apply fill_generated_int.
-  - now apply notnull_from_strict.
-  - now apply fill_generated_ok.
+  induction l as [|a l IH]; intros H i x Hi; [destruct i; discriminate|]. cbn in H. apply orb_false_iff in H.
+  destruct H as [Ha Hl]. destruct i; cbn in Hi; [congruence|eauto].
 Qed.
 
-(* omitted / DEFAULT columns hold the declared default (any values elsewhere, IGNORE or not) *)
+(* the stored row of a typed INSERT: every pending expression (generated column, expression default) holds over it *)
+Lemma insert_typed_row_shape sch chks rs r :
+  wf_schema sch -> typed_row sch rs -> insert_row false sch chks rs = Stored r ->
+  row_ok sch chks r /\ row_pending_ok (map2 pend_ins sch rs) r.
+Proof.
+  intros Hwf (HL & Ht & Hex) H. unfold insert_row, source_row in H.
+  destruct (existsb (fun b => b) (map3 def_null sch rs _)); [discriminate|].
+  set (pend := map2 pend_ins sch rs) in *. set (base := map2 cell_of_raw sch rs) in *.
+  assert (HLb : length base = length sch) by (unfold base; rewrite map2_length; auto).
+  assert (HLp : length pend = length sch) by (unfold pend; rewrite map2_length; auto).
+  assert (Hib : Forall int_cell base) by (now apply base_row_int).
+  set (filled := fill_from pend 0 base) in *.
+  assert (HL0 : length filled = length sch) by (unfold filled; now rewrite fill_from_length).
+  assert (Hif : Forall int_cell filled) by (now apply fill_from_int).
+  destruct (nullability false sch filled) as [row1|] eqn:En; [|discriminate].
+  pose proof (nullability_strict_id _ _ _ HL0 En) as ->.
+  destruct (existsb (check_false filled) chks) eqn:Ec; [discriminate|].
+  destruct (convert_row false sch filled) as [r0|e] eqn:Ecv; [|discriminate].
+  pose proof (convert_row_strict _ _ _ HL0 Hif Ecv) as ->.
+  assert (Hpend : row_pending_ok pend (map convert filled)).
+  { apply fill_from_ok; auto. - now apply wf_pend_ins. - congruence. }
+  assert (Hgen : row_generated_ok sch (map convert filled)).
+  { intros i c e Hs Hg. apply Hpend. unfold pend. rewrite pend_ins_nth, Hs.
+    destruct (nth_error_same_length sch rs i c (eq_sym HL) Hs) as [x Hx]. rewrite Hx. f_equal.
+    assert (Hx' : explicit_gen c x = false).
+    { apply (existsb_id_false _ Hex i). now rewrite map2_nth_error, Hs, Hx. }
+    unfold explicit_gen in Hx'. rewrite Hg in Hx'. destruct x; try discriminate. cbn. now rewrite Hg. }
+  rewrite refresh_virtual_id in H by (rewrite ?map_length; auto). injection H as <-.
+  split; [split; [|split; [|split]]|]; auto.
+  - now rewrite map_length.
+  - now apply checks_pass_ok.
+  - now apply notnull_from_strict.
+Qed.
+
+Theorem insert_typed_row_ok sch chks rs r :
+  wf_schema sch -> typed_row sch rs -> insert_row false sch chks rs = Stored r -> row_ok sch chks r.
+Proof. intros Hwf Ht H. now destruct (insert_typed_row_shape sch chks rs r Hwf Ht H). Qed.
+
+(* expression defaults: an omitted / DEFAULT column with DEFAULT (e) holds e evaluated over the stored row *)
+Theorem expression_defaults_applied sch chks rs r i c e :
+  wf_schema sch -> typed_row sch rs -> insert_row false sch chks rs = Stored r ->
+  nth_error sch i = Some c -> gen c = None -> dflt c = DExpr e -> nth_error rs i = Some RDef ->
+  nth i r None = eval_term (cells r) e.
+Proof.
+  intros Hwf Ht H Hs Hg Hd Hr. destruct (insert_typed_row_shape sch chks rs r Hwf Ht H) as [_ Hp].
+  apply Hp. rewrite pend_ins_nth, Hs, Hr. cbn. now rewrite Hg, Hd.
+Qed.
+
+(* literal defaults: any values elsewhere, IGNORE or not *)
 Theorem defaults_applied ign sch chks rs r i c :
   length rs = length sch -> insert_row ign sch chks rs = Stored r ->
   nth_error sch i = Some c -> gen c = None -> nth_error rs i = Some RDef ->
   match dflt c with
-  | Some d => nth i r None = Some d
-  | None => nth i r None = if ign && notnull c then Some 0 else None
+  | DLit d => in_range (cty c) d = true -> nth i r None = Some d
+  | DNone => in_range (cty c) 0 = true -> nth i r None = if ign && notnull c then Some 0 else None
+  | DExpr _ => True
   end.
 Proof.
   intros HL H Hs Hg Hr. unfold insert_row, source_row in H.
+  destruct (existsb (fun b => b) _); [discriminate|].
   destruct (nullability ign sch _) as [row1|] eqn:En; [|discriminate].
-  destruct (existsb _ chks); [destruct ign; discriminate|]. injection H as <-.
-  rewrite nth_as_error, nth_error_map, (nullability_nth ign _ _ _ En i), Hs.
-  rewrite (fill_generated_base _ _ i c Hs Hg), map2_nth_error, Hs, Hr. cbn.
-  destruct (dflt c) as [d|] eqn:Ed; cbn; auto.
-  destruct (notnull c) eqn:Enn; cbn.
-  - destruct ign; cbn; auto. exfalso.
-    eapply (nullability_strict _ _ _ En i c CNull); eauto.
-    rewrite (fill_generated_base _ _ i c Hs Hg), map2_nth_error, Hs, Hr. cbn. now rewrite Ed.
-  - now rewrite andb_false_r.
+  destruct (existsb _ chks); [destruct ign; discriminate|].
+  destruct (convert_row ign sch row1) as [r0|e0] eqn:Ecv; [|discriminate]. injection H as <-.
+  assert (Hbase : nth_error (fill_from (map2 pend_ins sch rs) 0 (map2 cell_of_raw sch rs)) i =
+                  Some (match dflt c with DLit d => CInt d | _ => CNull end) \/ exists e, dflt c = DExpr e).
+  { destruct (dflt c) as [|d|e] eqn:Ed; [left|left|right; eauto];
+      (rewrite fill_from_free; [rewrite map2_nth_error, Hs, Hr; cbn; now rewrite Ed|];
+       unfold free_at; rewrite pend_ins_nth, Hs, Hr; cbn; now rewrite Hg, Ed). }
+  destruct (dflt c) as [|d|e] eqn:Ed; auto.
+  - intros Hin. destruct Hbase as [Hbase|[e He]]; [|discriminate].
+    rewrite nth_as_error, (refresh_virtual_other sch r0 i c Hs (or_intror Hg)).
+    rewrite (convert_row_nth _ _ _ _ Ecv i), Hs, (nullability_nth ign _ _ _ En i), Hs, Hbase.
+    destruct (notnull c) eqn:Enn; cbn.
+    + destruct ign; cbn.
+      * unfold conv_val. cbn. unfold conv_range. now rewrite Hin.
+      * exfalso. eapply (nullability_strict _ _ _ En i c CNull); eauto.
+    + now rewrite andb_false_r.
+  - intros Hin. destruct Hbase as [Hbase|[e He]]; [|discriminate].
+    rewrite nth_as_error, (refresh_virtual_other sch r0 i c Hs (or_intror Hg)).
+    rewrite (convert_row_nth _ _ _ _ Ecv i), Hs, (nullability_nth ign _ _ _ En i), Hs, Hbase.
+    unfold conv_val. cbn. unfold conv_range. now rewrite Hin.
 Qed.
 
 (* ---------- NOT NULL holds for every stored row, whatever the values and with or without IGNORE ---------- *)
-Lemma convert_not_none x : x <> CNull -> convert x <> None.
-Proof. destruct x; cbn; congruence. Qed.
+(* virtual generated columns are nullable *)
+Definition wf_virtual (sch : list col) : Prop :=
+  forall i c, nth_error sch i = Some c -> virt c = true -> notnull c = false.
+
+Definition shape_ok (sch : list col) (r : list (option Z)) : Prop :=
+  length r = length sch /\ row_notnull_ok sch r.
+
+Lemma refresh_shape sch r : wf_virtual sch -> shape_ok sch r -> shape_ok sch (refresh_virtual sch r).
+Proof.
+  intros Hv [HL Hn]. split; [now rewrite refresh_virtual_length|].
+  intros i c Hs Hnn. rewrite nth_as_error, (refresh_virtual_other sch r i c Hs).
+  - rewrite <- nth_as_error. now apply (Hn i c).
+  - left. destruct (virt c) eqn:E; auto. rewrite (Hv i c Hs E) in Hnn. discriminate.
+Qed.
+
+Lemma convert_row_shape ign sch row1 row0 r :
+  length row0 = length sch -> nullability ign sch row0 = Some row1 -> convert_row ign sch row1 = inl r -> shape_ok sch r.
+Proof.
+  intros HL En Ecv.
+  assert (HL1 : length row1 = length sch) by (eapply nullability_length; eauto).
+  split; [eapply convert_row_length; eauto|].
+  intros i c Hs Hn. rewrite nth_as_error, (convert_row_nth _ _ _ _ Ecv i), Hs.
+  destruct (nth_error_same_length sch row1 i c (eq_sym HL1) Hs) as [x Hx]. rewrite Hx.
+  apply conv_val_not_none; [|eapply convert_row_noerr; eauto].
+  rewrite (nullability_nth ign _ _ _ En i), Hs in Hx.
+  destruct (nth_error row0 i) as [y|]; [|discriminate]. injection Hx as <-.
+  destruct y; try discriminate. rewrite Hn. discriminate.
+Qed.
+
+Theorem insert_row_notnull ign sch chks rs r :
+  wf_virtual sch -> length rs = length sch -> insert_row ign sch chks rs = Stored r -> shape_ok sch r.
+Proof.
+  intros Hv HL H. unfold insert_row, source_row in H.
+  destruct (existsb (fun b => b) _); [discriminate|].
+  destruct (nullability ign sch _) as [row1|] eqn:En; [|discriminate].
+  destruct (existsb _ chks); [destruct ign; discriminate|].
+  destruct (convert_row ign sch row1) as [r0|e0] eqn:Ecv; [|discriminate]. injection H as <-.
+  apply refresh_shape; auto. eapply convert_row_shape; eauto.
+  rewrite fill_from_length. now apply map2_length.
+Qed.
+
+Lemma apply_sets_length ign sch : forall sets row w,
+  apply_sets ign sch row sets = inl w -> length w = length row.
+Proof.
+  induction sets as [|[i rhs] sets IH]; intros row w H; cbn in H.
+  - now injection H as <-.
+  - destruct (set_value ign sch row i rhs) as [v|]; [|discriminate].
+    rewrite (IH _ _ H). apply set_nth_length.
+Qed.
 
 Lemma nullability_notnull ign sch row row' :
   length row = length sch -> nullability ign sch row = Some row' -> row_notnull_ok sch (map convert row').
@@ -323,197 +596,190 @@ Proof.
   destruct x; cbn; try congruence. rewrite Hn. cbn. congruence.
 Qed.
 
-Lemma nullability_length ign : forall sch row row',
-  length row = length sch -> nullability ign sch row = Some row' -> length row' = length sch.
-Proof.
-  induction sch as [|c sch IH]; intros [|x row] row' HL H; cbn in *; try discriminate.
-  - now injection H as <-.
-  - destruct (nullability ign sch row) as [rest|] eqn:E; [|discriminate].
-    assert (length rest = length sch) by (eapply IH; eauto; lia).
-    destruct x; try (injection H as <-; cbn; lia).
-    destruct (notnull c); [destruct ign; [injection H as <-; cbn; lia|discriminate]|injection H as <-; cbn; lia].
-Qed.
-
-Definition shape_ok (sch : list col) (r : list (option Z)) : Prop :=
-  length r = length sch /\ row_notnull_ok sch r.
-
-Theorem insert_row_notnull ign sch chks rs r :
-  length rs = length sch -> insert_row ign sch chks rs = Stored r -> shape_ok sch r.
-Proof.
-  intros HL H. unfold insert_row, source_row in H.
-  assert (HL0 : length (fill_generated sch (map2 cell_of_raw sch rs)) = length sch).
-  { apply fill_generated_length. now apply map2_length. }
-  destruct (nullability ign sch _) as [row1|] eqn:En; [|discriminate].
-  destruct (existsb _ chks); [destruct ign; discriminate|]. injection H as <-. split.
-  - rewrite map_length. eapply nullability_length; eauto.
-  - eapply nullability_notnull; eauto.
-Qed.
-
-Lemma apply_sets_length ign sch : forall sets row w,
-  apply_sets ign sch row sets = Some w -> length w = length row.
-Proof.
-  induction sets as [|[i rhs] sets IH]; intros row w H; cbn in H.
-  - now injection H as <-.
-  - destruct (set_value ign sch row i rhs) as [v|]; [|discriminate].
-    rewrite (IH _ _ H). apply set_nth_length.
-Qed.
-
 Theorem update_row_notnull ign sch chks sets old r :
-  shape_ok sch old -> update_row ign sch chks sets old = Stored r -> shape_ok sch r.
+  wf_virtual sch -> shape_ok sch old -> update_row ign sch chks sets old = Stored r -> shape_ok sch r.
 Proof.
-  intros [HLo Hno] H. unfold update_row in H.
+  intros Hv [HLo Hno] H. unfold update_row in H.
   destruct (apply_sets ign sch (map cell_of_opt old) sets) as [w|] eqn:Ea; [|discriminate].
   assert (HLw : length w = length sch).
   { rewrite (apply_sets_length _ _ _ _ _ Ea), map_length. auto. }
   set (w1 := if row_eqb (map convert w) old then w else fill_generated sch w) in *.
   assert (HL1 : length w1 = length sch).
-  { unfold w1. destruct (row_eqb (map convert w) old); auto. now apply fill_generated_length. }
+  { unfold w1. destruct (row_eqb (map convert w) old); auto. now rewrite fill_generated_length. }
   destruct (row_eqb (map convert w1) old); [injection H as <-; split; auto|].
   destruct (existsb (check_false w1) chks); [destruct ign; discriminate|].
-  destruct (nullability ign sch w1) as [w2|] eqn:En; [|discriminate]. injection H as <-. split.
+  destruct (nullability ign sch w1) as [w2|] eqn:En; [|discriminate]. injection H as <-.
+  apply refresh_shape; auto. split.
   - rewrite map_length. eapply nullability_length; eauto.
   - eapply nullability_notnull; eauto.
 Qed.
 
-Lemma insert_rows_shape ign sch chks : forall rows acc t',
-  Forall (fun rs => length rs = length sch) rows -> Forall (shape_ok sch) acc ->
-  insert_rows ign sch chks rows acc = inl t' -> Forall (shape_ok sch) t'.
-Proof.
-  induction rows as [|rs rows IH]; intros acc t' Hl Ha H; cbn in H.
-  - now injection H as <-.
-  - inversion Hl as [|? ? Hl1 Hl2]; subst.
-    destruct (insert_row ign sch chks rs) as [r| |e] eqn:E; try discriminate.
-    + apply (IH (acc ++ [r])); auto. apply Forall_app. split; auto. constructor; auto.
-      eapply insert_row_notnull; eauto.
-    + apply (IH acc); auto.
-Qed.
+Lemma firstn_length_le {A} n (l : list A) : (n <= length l)%nat -> length (firstn n l) = n.
+Proof. intros H. rewrite firstn_length. lia. Qed.
 
-Lemma update_rows_shape ign sch chks sets wh : forall t t',
-  Forall (shape_ok sch) t -> update_rows ign sch chks sets wh t = inl t' -> Forall (shape_ok sch) t'.
-Proof.
-  induction t as [|r t IH]; intros t' Ht H; cbn in H.
-  - now injection H as <-.
-  - inversion Ht as [|? ? Hr Ht']; subst.
-    destruct (matches wh r).
-    + destruct (update_row ign sch chks sets r) as [r'| |e] eqn:E; try discriminate.
-      * destruct (update_rows ign sch chks sets wh t) as [t2|]; [|discriminate]. injection H as <-.
-        constructor; auto. eapply update_row_notnull; eauto.
-      * destruct (update_rows ign sch chks sets wh t) as [t2|]; [|discriminate]. injection H as <-.
-        constructor; auto.
-    + destruct (update_rows ign sch chks sets wh t) as [t2|]; [|discriminate]. injection H as <-.
-      constructor; auto.
-Qed.
+Lemma Forall_firstn {A} (P : A -> Prop) n l : Forall P l -> Forall P (firstn n l).
+Proof. intros H. revert n. induction H; intros [|n]; cbn; auto. Qed.
 
-Lemma insert_by_id_forall (P : list (option Z) -> Prop) r : forall t, P r -> Forall P t -> Forall P (insert_by_id r t).
+Lemma odku_row_notnull ign sch chks sets old new r :
+  wf_virtual sch -> shape_ok sch old -> odku_row ign sch chks sets old new = Stored r -> shape_ok sch r.
 Proof.
-  induction t as [|x t IH]; intros Hr Ht; cbn; [constructor; auto|].
-  inversion Ht as [|? ? Hx Ht']; subst.
-  destruct (nth 0 r None), (nth 0 x None); try (constructor; auto).
-  destruct (z <? z0); constructor; auto.
-Qed.
-
-Lemma replace_id_forall (P : list (option Z) -> Prop) k r : forall t, P r -> Forall P t -> Forall P (replace_id k r t).
-Proof.
-  induction t as [|x t IH]; intros Hr Ht; cbn; auto.
-  inversion Ht as [|? ? Hx Ht']; subst. destruct (opt_eqb (nth 0 x None) k); constructor; auto.
-Qed.
-
-Lemma odku_row_notnull sch chks sets old r :
-  shape_ok sch old -> odku_row sch chks sets old = Stored r -> shape_ok sch r.
-Proof.
-  intros [HLo Hno] H. unfold odku_row in H.
-  destruct (apply_sets false sch (map cell_of_opt old) sets) as [w|] eqn:Ea; [|discriminate].
-  assert (HLw : length w = length sch).
-  { rewrite (apply_sets_length _ _ _ _ _ Ea), map_length. auto. }
+  intros Hv [HLo Hno] H. unfold odku_row in H.
+  destruct (apply_sets false sch _ sets) as [acc|] eqn:Ea; [|discriminate].
+  assert (HLw : length (firstn (length old) acc) = length sch).
+  { rewrite firstn_length_le; auto. rewrite (apply_sets_length _ _ _ _ _ Ea), app_length, !map_length. lia. }
+  set (w := firstn (length old) acc) in *.
   set (w1 := if row_eqb (map convert w) old then w else fill_generated sch w) in *.
   assert (HL1 : length w1 = length sch).
-  { unfold w1. destruct (row_eqb (map convert w) old); auto. now apply fill_generated_length. }
-  destruct (existsb (check_false w1) chks); [discriminate|].
-  destruct (nullability false sch w1) as [w2|] eqn:En; [|discriminate]. injection H as <-. split.
+  { unfold w1. destruct (row_eqb (map convert w) old); auto. now rewrite fill_generated_length. }
+  destruct (existsb (check_false w1) chks); [destruct ign; discriminate|].
+  destruct (nullability false sch w1) as [w2|] eqn:En; [|discriminate]. injection H as <-.
+  apply refresh_shape; auto. split.
   - rewrite map_length. eapply nullability_length; eauto.
   - eapply nullability_notnull; eauto.
 Qed.
 
-Lemma upsert_forall (P : list (option Z) -> Prop) sch chks rs sets t :
-  (forall r, insert_row false sch chks rs = Stored r -> P r) ->
-  (forall old r, P old -> odku_row sch chks sets old = Stored r -> P r) ->
-  Forall P t -> Forall P (fst (exec sch chks t (Upsert rs sets))).
-Proof.
-  intros Hi Hu Ht. cbn.
-  destruct (insert_row false sch chks rs) as [r| |e] eqn:Ei; cbn; auto.
-  destruct (find _ t) as [old|] eqn:Ef.
-  - apply find_some in Ef. destruct Ef as [Hin _].
-    assert (Pold : P old) by (rewrite Forall_forall in Ht; auto).
-    destruct (odku_row sch chks sets old) as [r'| |e] eqn:Eo; cbn; auto.
-    apply replace_id_forall; eauto.
-  - cbn. apply insert_by_id_forall; auto.
-Qed.
+(* ---------- the statements: one invariant P on rows, preserved by the row-level steps ---------- *)
+Section Statements.
+  Variable sch : list col.
+  Variable chks : list check.
+  Variable P : list (option Z) -> Prop.
+
+  Lemma insert_rows_forall ign (Q : list raw -> Prop) :
+    (forall rs r, Q rs -> insert_row ign sch chks rs = Stored r -> P r) ->
+    forall rows acc t', Forall Q rows -> Forall P acc -> insert_rows ign sch chks rows acc = inl t' -> Forall P t'.
+  Proof.
+    intros Hi. induction rows as [|rs rows IH]; intros acc t' Hl Ha H; cbn in H.
+    - now injection H as <-.
+    - inversion Hl as [|? ? Hl1 Hl2]; subst.
+      destruct (insert_row ign sch chks rs) as [r| |e] eqn:E; try discriminate.
+      + apply (IH (acc ++ [r])); auto. apply Forall_app. split; auto.
+      + apply (IH acc); auto.
+  Qed.
+
+  Lemma update_rows_forall ign sets wh :
+    (forall old r, P old -> update_row ign sch chks sets old = Stored r -> P r) ->
+    forall t t', Forall P t -> update_rows ign sch chks sets wh t = inl t' -> Forall P t'.
+  Proof.
+    intros Hu. induction t as [|r t IH]; intros t' Ht H; cbn in H.
+    - now injection H as <-.
+    - inversion Ht as [|? ? Hr Ht']; subst.
+      destruct (matches wh r).
+      + destruct (update_row ign sch chks sets r) as [r'| |e] eqn:E; try discriminate.
+        * destruct (update_rows ign sch chks sets wh t) as [t2|]; [|discriminate]. injection H as <-.
+          constructor; eauto.
+        * destruct (update_rows ign sch chks sets wh t) as [t2|]; [|discriminate]. injection H as <-.
+          constructor; auto.
+      + destruct (update_rows ign sch chks sets wh t) as [t2|]; [|discriminate]. injection H as <-.
+        constructor; auto.
+  Qed.
+
+  Lemma insert_by_id_forall r : forall t, P r -> Forall P t -> Forall P (insert_by_id r t).
+  Proof.
+    induction t as [|x t IH]; intros Hr Ht; cbn; [constructor; auto|].
+    inversion Ht as [|? ? Hx Ht']; subst.
+    destruct (nth 0 r None), (nth 0 x None); try (constructor; auto).
+    destruct (z <? z0); constructor; auto.
+  Qed.
+
+  Lemma replace_id_forall k r : forall t, P r -> Forall P t -> Forall P (replace_id k r t).
+  Proof.
+    induction t as [|x t IH]; intros Hr Ht; cbn; auto.
+    inversion Ht as [|? ? Hx Ht']; subst. destruct (opt_eqb (nth 0 x None) k); constructor; auto.
+  Qed.
+
+  Lemma filter_forall (f : list (option Z) -> bool) t : Forall P t -> Forall P (filter f t).
+  Proof. induction 1; cbn; auto. destruct (f x); auto. Qed.
+
+  Lemma upsert_rows_forall ign sets (Q : list raw -> Prop) :
+    (forall rs r, Q rs -> insert_row ign sch chks rs = Stored r -> P r) ->
+    (forall old new r, P old -> P new -> odku_row ign sch chks sets old new = Stored r -> P r) ->
+    forall rows t t', Forall Q rows -> Forall P t -> upsert_rows ign sch chks sets rows t = inl t' -> Forall P t'.
+  Proof.
+    intros Hi Hu. induction rows as [|rs rows IH]; intros t t' Hl Ht H; cbn in H.
+    - now injection H as <-.
+    - inversion Hl as [|? ? Hl1 Hl2]; subst.
+      destruct (insert_row ign sch chks rs) as [r| |e] eqn:Ei; try discriminate.
+      + assert (Pr : P r) by eauto.
+        destruct (find (same_id r) t) as [old|] eqn:Ef.
+        * apply find_some in Ef. destruct Ef as [Hin _].
+          assert (Pold : P old) by (rewrite Forall_forall in Ht; auto).
+          destruct (odku_row ign sch chks sets old r) as [r'| |e] eqn:Eo; try discriminate.
+          -- apply (IH _ _ Hl2 (replace_id_forall _ r' t (Hu _ _ _ Pold Pr Eo) Ht) H).
+          -- apply (IH _ _ Hl2 Ht H).
+        * apply (IH _ _ Hl2 (insert_by_id_forall r t Pr Ht) H).
+      + apply (IH _ _ Hl2 Ht H).
+  Qed.
+
+  Lemma replace_rows_forall (Q : list raw -> Prop) :
+    (forall rs r, Q rs -> insert_row false sch chks rs = Stored r -> P r) ->
+    forall rows t t', Forall Q rows -> Forall P t -> replace_rows sch chks rows t = inl t' -> Forall P t'.
+  Proof.
+    intros Hi. induction rows as [|rs rows IH]; intros t t' Hl Ht H; cbn in H.
+    - now injection H as <-.
+    - inversion Hl as [|? ? Hl1 Hl2]; subst.
+      destruct (insert_row false sch chks rs) as [r| |e] eqn:Ei; try discriminate.
+      + apply (IH _ _ Hl2 (insert_by_id_forall r _ (Hi _ _ Hl1 Ei) (filter_forall _ t Ht)) H).
+      + apply (IH _ _ Hl2 Ht H).
+  Qed.
+End Statements.
 
 Definition stmt_lengths_ok (sch : list col) (s : stmt) : Prop :=
   match s with
-  | Insert _ rows => Forall (fun rs => length rs = length sch) rows
+  | Insert _ rows | Upsert _ rows _ | Replace rows => Forall (fun rs => length rs = length sch) rows
   | Update _ _ _ => True
-  | Upsert rs _ => length rs = length sch
   end.
 
-Theorem not_null_respected sch chks : forall h t,
+Lemma exec_fin_forall (P : list (option Z) -> Prop) (t : table) (x : table + err) :
+  Forall P t -> (forall t', x = inl t' -> Forall P t') ->
+  Forall P (fst (match x with inl t' => (t', ROk) | inr e => (t, RErr e) end)).
+Proof. intros Ht H. destruct x; cbn; auto. Qed.
+
+Theorem not_null_respected sch chks : wf_virtual sch -> forall h t,
   Forall (stmt_lengths_ok sch) h -> Forall (shape_ok sch) t -> Forall (shape_ok sch) (run sch chks t h).
 Proof.
-  induction h as [|s h IH]; intros t Hh Ht; cbn; auto.
+  intros Hv. induction h as [|s h IH]; intros t Hh Ht; cbn [run]; auto.
   inversion Hh as [|? ? Hs Hh']; subst. apply IH; auto.
-  destruct s as [ign rows|ign sets wh|rs sets]; [cbn|cbn|].
-  - destruct (insert_rows ign sch chks rows t) as [t'|e] eqn:E; cbn; auto.
-    eapply insert_rows_shape; eauto.
-  - destruct (update_rows ign sch chks sets wh t) as [t'|e] eqn:E; cbn; auto.
-    eapply update_rows_shape; eauto.
-  - apply upsert_forall; auto.
-    + intros r Hr. eapply insert_row_notnull; eauto.
-    + intros old r Ho Hr. eapply odku_row_notnull; eauto.
+  unfold exec. set (ck := eff_checks sch chks).
+  destruct s as [ign rows|ign sets wh|ign rows sets|rows]; cbn in Hs.
+  - destruct (first_row_gen_value sch rows); [exact Ht|]. apply exec_fin_forall; auto. intros t' E.
+    eapply (insert_rows_forall sch ck (shape_ok sch) ign (fun rs => length rs = length sch)); eauto.
+    intros rs r Hl Hr. eapply insert_row_notnull; eauto.
+  - apply exec_fin_forall; auto. intros t' E.
+    eapply (update_rows_forall sch ck (shape_ok sch)); eauto.
+    intros old r Ho Hr. eapply update_row_notnull; eauto.
+  - destruct (first_row_gen_value sch rows); [exact Ht|]. apply exec_fin_forall; auto. intros t' E.
+    eapply (upsert_rows_forall sch ck (shape_ok sch) ign sets (fun rs => length rs = length sch)); eauto.
+    + intros rs r Hl Hr. eapply insert_row_notnull; eauto.
+    + intros old new r Ho _ Hr. eapply odku_row_notnull; eauto.
+  - destruct (first_row_gen_value sch rows); [exact Ht|]. apply exec_fin_forall; auto. intros t' E.
+    eapply (replace_rows_forall sch ck (shape_ok sch) (fun rs => length rs = length sch)); eauto.
+    intros rs r Hl Hr. eapply insert_row_notnull; eauto.
 Qed.
 
-(* ---------- UPDATE with typed right sides, no IGNORE ---------- *)
+(* ---------- UPDATE / ON DUPLICATE KEY UPDATE with typed right sides, no IGNORE ---------- *)
 Definition typed_rhs (x : urhs) : Prop := match x with URaw r => typed_raw r | UTerm _ => True end.
 
-
-Lemma apply_sets_int sch : forall sets row w,
-  Forall (fun p => typed_rhs (snd p)) sets -> Forall int_cell row ->
-  apply_sets false sch row sets = Some w -> Forall int_cell w.
+Lemma set_value_int ign sch row i rhs v : set_value ign sch row i rhs = inl v -> int_cell v.
 Proof.
-  induction sets as [|[i rhs] sets IH]; intros row w Ht Hr H; cbn in H.
+  unfold set_value. destruct rhs as [r|e].
+  - destruct r; intros H; try (injection H as <-; cbn; auto; fail);
+      try (destruct ign; [injection H as <-; exact I|discriminate]).
+    destruct (gen (nth i sch no_col)); [injection H as <-; destruct (eval_term row t); exact I|].
+    destruct (dflt (nth i sch no_col)); try (injection H as <-; exact I).
+    destruct (eval_term row e); [injection H as <-; exact I|].
+    destruct (notnull (nth i sch no_col)); [discriminate|injection H as <-; exact I].
+  - intros H. injection H as <-. destruct (eval_term row e); exact I.
+Qed.
+
+Lemma apply_sets_int ign sch : forall sets row w,
+  Forall int_cell row -> apply_sets ign sch row sets = inl w -> Forall int_cell w.
+Proof.
+  induction sets as [|[i rhs] sets IH]; intros row w Hr H; cbn in H.
   - now injection H as <-.
-  - inversion Ht as [|? ? H1 H2]; subst. cbn in H1.
-    destruct (set_value false sch row i rhs) as [v|] eqn:Ev; [|discriminate].
-    assert (Hv : int_cell v).
-    { destruct rhs as [r|e]; cbn in Ev.
-      + destruct r; cbn in H1; try contradiction; injection Ev as <-; cbn; auto. apply int_cell_of_opt.
-      + injection Ev as <-. apply int_cell_of_opt. }
-    apply (IH _ _ H2 (set_nth_int i v row Hv Hr) H).
+  - destruct (set_value ign sch row i rhs) as [v|] eqn:Ev; [|discriminate].
+    apply (IH _ _ (set_nth_int i v row (set_value_int _ _ _ _ _ _ Ev) Hr) H).
 Qed.
 
-Theorem update_typed_row_ok sch chks sets old r :
-  wf_schema sch -> Forall (fun p => typed_rhs (snd p)) sets ->
-  row_ok sch chks old -> update_row false sch chks sets old = Stored r -> row_ok sch chks r.
-Proof.
-  intros Hwf Ht Hold H. pose proof Hold as (HLo & _). unfold update_row in H.
-  destruct (apply_sets false sch (map cell_of_opt old) sets) as [w|] eqn:Ea; [|discriminate].
-  assert (HLw : length w = length sch).
-  { rewrite (apply_sets_length _ _ _ _ _ Ea), map_length. auto. }
-  assert (Hiw : Forall int_cell w) by (exact (apply_sets_int sch sets (cells old) w Ht (cells_int old) Ea)).
-  destruct (row_eqb (map convert w) old) eqn:E1.
-  - rewrite E1 in H. now injection H as <-.
-  - destruct (row_eqb (map convert (fill_generated sch w)) old); [now injection H as <-|].
-    destruct (existsb (check_false (fill_generated sch w)) chks) eqn:Ec; [discriminate|].
-    assert (HL1 : length (fill_generated sch w) = length sch) by (now apply fill_generated_length).
-    destruct (nullability false sch (fill_generated sch w)) as [w2|] eqn:En; [|discriminate].
-    pose proof (nullability_strict_id _ _ _ HL1 En) as ->. injection H as <-.
-    split; [|split; [|split]].
-    + now rewrite map_length.
-    + apply checks_pass_ok; auto. now apply fill_generated_int.
-    + now apply notnull_from_strict.
-    + now apply fill_generated_ok.
-Qed.
-
-(* ---------- all histories of typed statements without IGNORE ---------- *)
 Lemma opt_eqb_eq a b : opt_eqb a b = true -> a = b.
 Proof. destruct a, b; cbn; try discriminate; auto. intros H. apply Z.eqb_eq in H. now subst. Qed.
 
@@ -523,85 +789,106 @@ Proof.
   apply andb_true_iff in H. destruct H as [H1 H2]. apply opt_eqb_eq in H1. apply IH in H2. congruence.
 Qed.
 
-Theorem odku_typed_row_ok sch chks sets old r :
-  wf_schema sch -> Forall (fun p => typed_rhs (snd p)) sets ->
-  row_ok sch chks old -> odku_row sch chks sets old = Stored r -> row_ok sch chks r.
+(* the common tail of UPDATE and ON DUPLICATE KEY UPDATE: the recomputed row passes the checks and is stored *)
+Lemma recomputed_row_ok sch chks w r :
+  wf_schema sch -> length w = length sch -> Forall int_cell w ->
+  existsb (check_false (fill_generated sch w)) chks = false ->
+  nullability false sch (fill_generated sch w) = Some r ->
+  row_ok sch chks (refresh_virtual sch (map convert r)).
 Proof.
-  intros Hwf Ht Hold H. pose proof Hold as (HLo & _). unfold odku_row in H.
+  intros Hwf HLw Hiw Ec En.
+  assert (HL1 : length (fill_generated sch w) = length sch) by (now rewrite fill_generated_length).
+  pose proof (nullability_strict_id _ _ _ HL1 En) as ->.
+  assert (Hg : row_generated_ok sch (map convert (fill_generated sch w))) by (now apply fill_generated_ok).
+  rewrite refresh_virtual_id by (rewrite ?map_length; auto).
+  split; [|split; [|split]]; auto.
+  - now rewrite map_length.
+  - apply checks_pass_ok; auto. now apply fill_generated_int.
+  - now apply notnull_from_strict.
+Qed.
+
+Theorem update_typed_row_ok sch chks sets old r :
+  wf_schema sch -> row_ok sch chks old -> update_row false sch chks sets old = Stored r -> row_ok sch chks r.
+Proof.
+  intros Hwf Hold H. pose proof Hold as (HLo & _). unfold update_row in H.
   destruct (apply_sets false sch (map cell_of_opt old) sets) as [w|] eqn:Ea; [|discriminate].
   assert (HLw : length w = length sch).
   { rewrite (apply_sets_length _ _ _ _ _ Ea), map_length. auto. }
-  assert (Hiw : Forall int_cell w) by (exact (apply_sets_int sch sets (cells old) w Ht (cells_int old) Ea)).
+  assert (Hiw : Forall int_cell w) by (exact (apply_sets_int false sch sets (cells old) w (cells_int old) Ea)).
+  destruct (row_eqb (map convert w) old) eqn:E1.
+  - rewrite E1 in H. now injection H as <-.
+  - destruct (row_eqb (map convert (fill_generated sch w)) old); [now injection H as <-|].
+    destruct (existsb (check_false (fill_generated sch w)) chks) eqn:Ec; [discriminate|].
+    destruct (nullability false sch (fill_generated sch w)) as [w2|] eqn:En; [|discriminate].
+    injection H as <-. now apply recomputed_row_ok.
+Qed.
+
+Theorem odku_typed_row_ok sch chks sets old new r :
+  wf_schema sch -> row_ok sch chks old -> odku_row false sch chks sets old new = Stored r -> row_ok sch chks r.
+Proof.
+  intros Hwf Hold H. pose proof Hold as (HLo & _). unfold odku_row in H.
+  destruct (apply_sets false sch _ sets) as [acc|] eqn:Ea; [|discriminate].
+  set (w := firstn (length old) acc) in *.
+  assert (HLw : length w = length sch).
+  { unfold w. rewrite firstn_length_le; auto. rewrite (apply_sets_length _ _ _ _ _ Ea), app_length, !map_length. lia. }
+  assert (Hiw : Forall int_cell w).
+  { apply Forall_firstn. apply (apply_sets_int false sch sets _ acc); auto. apply Forall_app. split; apply cells_int. }
   destruct (row_eqb (map convert w) old) eqn:E1.
   - destruct (existsb (check_false w) chks); [discriminate|].
     destruct (nullability false sch w) as [w2|] eqn:En; [|discriminate].
     pose proof (nullability_strict_id _ _ _ HLw En) as ->. injection H as <-.
-    apply row_eqb_eq in E1. now rewrite E1.
+    apply row_eqb_eq in E1. rewrite E1. rewrite refresh_virtual_id; auto. now destruct Hold as (_ & _ & _ & Hg).
   - destruct (existsb (check_false (fill_generated sch w)) chks) eqn:Ec; [discriminate|].
-    assert (HL1 : length (fill_generated sch w) = length sch) by (now apply fill_generated_length).
     destruct (nullability false sch (fill_generated sch w)) as [w2|] eqn:En; [|discriminate].
-    pose proof (nullability_strict_id _ _ _ HL1 En) as ->. injection H as <-.
-    split; [|split; [|split]].
-    + now rewrite map_length.
-    + apply checks_pass_ok; auto. now apply fill_generated_int.
-    + now apply notnull_from_strict.
-    + now apply fill_generated_ok.
+    injection H as <-. now apply recomputed_row_ok.
 Qed.
 
+(* ---------- all histories of typed statements without IGNORE ---------- *)
 Definition typed_stmt (sch : list col) (s : stmt) : Prop :=
   match s with
-  | Insert ign rows => ign = false /\ Forall (fun rs => length rs = length sch /\ Forall typed_raw rs) rows
-  | Update ign sets _ => ign = false /\ Forall (fun p => typed_rhs (snd p)) sets
-  | Upsert rs sets => (length rs = length sch /\ Forall typed_raw rs) /\ Forall (fun p => typed_rhs (snd p)) sets
+  | Insert ign rows => ign = false /\ Forall (typed_row sch) rows
+  | Update ign _ _ => ign = false
+  | Upsert ign rows _ => ign = false /\ Forall (typed_row sch) rows
+  | Replace rows => Forall (typed_row sch) rows
   end.
 
-Lemma insert_rows_ok sch chks : wf_schema sch -> forall rows acc t',
-  Forall (fun rs => length rs = length sch /\ Forall typed_raw rs) rows -> Forall (row_ok sch chks) acc ->
-  insert_rows false sch chks rows acc = inl t' -> Forall (row_ok sch chks) t'.
-Proof.
-  intros Hwf. induction rows as [|rs rows IH]; intros acc t' Hl Ha H; cbn in H.
-  - now injection H as <-.
-  - inversion Hl as [|? ? [Hl1 Hl1'] Hl2]; subst.
-    destruct (insert_row false sch chks rs) as [r| |e] eqn:E; try discriminate.
-    + apply (IH (acc ++ [r])); auto. apply Forall_app. split; auto. constructor; auto.
-      eapply insert_typed_row_ok; eauto.
-    + apply (IH acc); auto.
-Qed.
-
-Lemma update_rows_ok sch chks sets wh : wf_schema sch -> Forall (fun p => typed_rhs (snd p)) sets ->
-  forall t t', Forall (row_ok sch chks) t -> update_rows false sch chks sets wh t = inl t' -> Forall (row_ok sch chks) t'.
-Proof.
-  intros Hwf Hs. induction t as [|r t IH]; intros t' Ht H; cbn in H.
-  - now injection H as <-.
-  - inversion Ht as [|? ? Hr Ht']; subst.
-    destruct (matches wh r).
-    + destruct (update_row false sch chks sets r) as [r'| |e] eqn:E; try discriminate.
-      * destruct (update_rows false sch chks sets wh t) as [t2|]; [|discriminate]. injection H as <-.
-        constructor; auto. eapply update_typed_row_ok; eauto.
-      * destruct (update_rows false sch chks sets wh t) as [t2|]; [|discriminate]. injection H as <-.
-        constructor; auto.
-    + destruct (update_rows false sch chks sets wh t) as [t2|]; [|discriminate]. injection H as <-.
-      constructor; auto.
-Qed.
-
+(* the CHECKs the engine enforces: none at all when the table has a VIRTUAL column *)
 Theorem stored_rows_ok_typed_histories sch chks : wf_schema sch -> forall h t,
-  Forall (typed_stmt sch) h -> Forall (row_ok sch chks) t -> Forall (row_ok sch chks) (run sch chks t h).
+  Forall (typed_stmt sch) h -> Forall (row_ok sch (eff_checks sch chks)) t ->
+  Forall (row_ok sch (eff_checks sch chks)) (run sch chks t h).
 Proof.
-  intros Hwf. induction h as [|s h IH]; intros t Hh Ht; cbn; auto.
+  intros Hwf. induction h as [|s h IH]; intros t Hh Ht; cbn [run]; auto.
   inversion Hh as [|? ? Hs Hh']; subst. apply IH; auto.
-  destruct s as [ign rows|ign sets wh|rs sets]; cbn in Hs.
-  - destruct Hs as [-> Hs]; cbn. destruct (insert_rows false sch chks rows t) as [t'|e] eqn:E; cbn; auto.
-    eapply insert_rows_ok; eauto.
-  - destruct Hs as [-> Hs]; cbn. destruct (update_rows false sch chks sets wh t) as [t'|e] eqn:E; cbn; auto.
-    eapply update_rows_ok; eauto.
-  - destruct Hs as [[Hl Hr] Hs]. apply upsert_forall; auto.
-    + intros r Hi. eapply insert_typed_row_ok; eauto.
-    + intros old r Ho Hu. eapply odku_typed_row_ok; eauto.
+  unfold exec. set (ck := eff_checks sch chks) in *.
+  destruct s as [ign rows|ign sets wh|ign rows sets|rows]; cbn in Hs.
+  - destruct Hs as [-> Hs]. destruct (first_row_gen_value sch rows); [exact Ht|]. apply exec_fin_forall; auto. intros t' E.
+    eapply (insert_rows_forall sch ck (row_ok sch ck) false (typed_row sch)); eauto.
+    intros rs r Hl Hr. eapply insert_typed_row_ok; eauto.
+  - subst ign. apply exec_fin_forall; auto. intros t' E.
+    eapply (update_rows_forall sch ck (row_ok sch ck)); eauto.
+    intros old r Ho Hr. eapply update_typed_row_ok; eauto.
+  - destruct Hs as [-> Hs]. destruct (first_row_gen_value sch rows); [exact Ht|]. apply exec_fin_forall; auto. intros t' E.
+    eapply (upsert_rows_forall sch ck (row_ok sch ck) false sets (typed_row sch)); eauto.
+    + intros rs r Hl Hr. eapply insert_typed_row_ok; eauto.
+    + intros old new r Ho _ Hr. eapply odku_typed_row_ok; eauto.
+  - destruct (first_row_gen_value sch rows); [exact Ht|]. apply exec_fin_forall; auto. intros t' E.
+    eapply (replace_rows_forall sch ck (row_ok sch ck) (typed_row sch)); eauto.
+    intros rs r Hl Hr. eapply insert_typed_row_ok; eauto.
 Qed.
+
+(* without a VIRTUAL column these are the declared CHECKs *)
+Lemma eff_checks_no_virtual sch chks : existsb virt sch = false -> eff_checks sch chks = chks.
+Proof. intros H. unfold eff_checks. now rewrite H. Qed.
 
 (* ---------- what is false of the faithful model ---------- *)
+Definition I32 := mkTy (-2147483648) 2147483647 false.
+Definition I8 := mkTy (-128) 127 false.
+Definition U8 := mkTy 0 255 true.
+Definition bcol (nn : bool) := mkCol I32 nn DNone None false.
+Definition gcol (e : term) := mkCol I32 false DNone (Some e) false.
+
 (* t (c0 INT PRIMARY KEY, c1 INT, CHECK (c1 < 10)); INSERT INTO t VALUES (1, '9.6') stores 10 *)
-Definition w_sch1 := [mkCol true None None; mkCol false None None].
+Definition w_sch1 := [bcol true; bcol false].
 Definition w_chk1 := [mkCheck Lt (TCol 1) (TLit 10)].
 Lemma check_before_convert_witness :
   run w_sch1 w_chk1 [] [Insert false [[RInt 1; RStrF 96]]] = [[Some 1; Some 10]] /\
@@ -609,14 +896,14 @@ Lemma check_before_convert_witness :
 Proof. split; vm_compute; reflexivity. Qed.
 
 (* t (c0, c1 INT, c2 INT AS (c1 * 2) STORED); '9.6' stores c1 = 10, c2 = 18 *)
-Definition w_sch2 := [mkCol true None None; mkCol false None None; mkCol false None (Some (TMul (TCol 1) (TLit 2)))].
+Definition w_sch2 := [bcol true; bcol false; gcol (TMul (TCol 1) (TLit 2))].
 Lemma generated_before_convert_witness :
   run w_sch2 [] [] [Insert false [[RInt 1; RStrF 96; RDef]]] = [[Some 1; Some 10; Some 18]] /\
   eval_term (cells [Some 1; Some 10; Some 18]) (TMul (TCol 1) (TLit 2)) = Some 20.
 Proof. split; vm_compute; reflexivity. Qed.
 
 (* t (c0, c1 INT NOT NULL, c2 INT AS (c1 + 1) STORED, CHECK (c1 > 5)); UPDATE IGNORE t SET c1 = NULL: c1 = 0, c2 = NULL *)
-Definition w_sch3 := [mkCol true None None; mkCol true None None; mkCol false None (Some (TAdd (TCol 1) (TLit 1)))].
+Definition w_sch3 := [bcol true; bcol true; gcol (TAdd (TCol 1) (TLit 1))].
 Definition w_chk3 := [mkCheck Gt (TCol 1) (TLit 5)].
 Lemma update_ignore_null_witness :
   run w_sch3 w_chk3 [] [Insert false [[RInt 1; RInt 7; RDef]]; Update true [(1%nat, URaw RNull)] (Some 1)]
@@ -626,25 +913,66 @@ Lemma update_ignore_null_witness :
 Proof. repeat split; vm_compute; reflexivity. Qed.
 
 (* INSERT IGNORE of NULL into NOT NULL c1 with c3 = c1 + c2: c1 = 0, c3 = NULL *)
-Definition w_sch4 := [mkCol true None None; mkCol true None None; mkCol false (Some 4) None;
-                      mkCol false None (Some (TAdd (TCol 1) (TCol 2)))].
+Definition w_sch4 := [bcol true; bcol true; mkCol I32 false (DLit 4) None false; gcol (TAdd (TCol 1) (TCol 2))].
 Lemma insert_ignore_null_witness :
   run w_sch4 [] [] [Insert true [[RInt 1; RNull; RDef; RDef]]] = [[Some 1; Some 0; Some 4; None]] /\
   eval_term (cells [Some 1; Some 0; Some 4; None]) (TAdd (TCol 1) (TCol 2)) = Some 4.
 Proof. split; vm_compute; reflexivity. Qed.
 
-(* non-vacuity: a typed history that stores rows, with a wf schema *)
+(* t (c0, c1 TINYINT, c2 TINYINT UNSIGNED, c3 AS (c1 + 1), CHECK (c1 <> 127), CHECK (c2 < 100)):
+   INSERT IGNORE (1, 200, -5) stores c1 = 127 (clamped), c2 = 251 (wrapped), c3 = 201 *)
+Definition w_sch5 := [bcol true; mkCol I8 false DNone None false; mkCol U8 false DNone None false; gcol (TAdd (TCol 1) (TLit 1))].
+Definition w_chk5 := [mkCheck Ne (TCol 1) (TLit 127); mkCheck Lt (TCol 2) (TLit 100)].
+Lemma ignore_clamp_witness :
+  run w_sch5 w_chk5 [] [Insert true [[RInt 1; RInt 200; RInt (-5); RDef]]] = [[Some 1; Some 127; Some 251; Some 201]] /\
+  eval_check (cells [Some 1; Some 127; Some 251; Some 201]) (mkCheck Ne (TCol 1) (TLit 127)) = Some false /\
+  eval_check (cells [Some 1; Some 127; Some 251; Some 201]) (mkCheck Lt (TCol 2) (TLit 100)) = Some false /\
+  eval_term (cells [Some 1; Some 127; Some 251; Some 201]) (TAdd (TCol 1) (TLit 1)) = Some 128.
+Proof. repeat split; vm_compute; reflexivity. Qed.
+
+(* CHECK (c1 <> 12): INSERT IGNORE (1, '12abc') compares 0 with 12 and stores 12 *)
+Definition w_chk6 := [mkCheck Ne (TCol 1) (TLit 12)].
+Lemma malformed_string_witness :
+  run w_sch1 w_chk6 [] [Insert true [[RInt 1; RBad 12]]] = [[Some 1; Some 12]] /\
+  eval_check (cells [Some 1; Some 12]) (mkCheck Ne (TCol 1) (TLit 12)) = Some false.
+Proof. split; vm_compute; reflexivity. Qed.
+
+(* t (c0, c1 INT, c2 INT DEFAULT (c1 + 1)): INSERT (1, '3.6') stores c1 = 4 and c2 = 3 + 1 *)
+Definition w_sch7 := [bcol true; bcol false; mkCol I32 false (DExpr (TAdd (TCol 1) (TLit 1))) None false].
+Lemma expression_default_witness :
+  run w_sch7 [] [] [Insert false [[RInt 1; RStrF 36; RDef]]] = [[Some 1; Some 4; Some 4]] /\
+  eval_term (cells [Some 1; Some 4; Some 4]) (TAdd (TCol 1) (TLit 1)) = Some 5.
+Proof. split; vm_compute; reflexivity. Qed.
+
+(* t (c0, c1 INT, c2 INT AS (c1 + 1) VIRTUAL, CHECK (c1 < 10)): no check is enforced: INSERT (1, 30), UPDATE c1 = 50 *)
+Definition w_sch8 := [bcol true; bcol false; mkCol I32 false DNone (Some (TAdd (TCol 1) (TLit 1))) true].
+Lemma virtual_checks_witness :
+  run w_sch8 w_chk1 [] [Insert false [[RInt 1; RInt 30; RDef]]] = [[Some 1; Some 30; Some 31]] /\
+  run w_sch8 w_chk1 [] [Insert false [[RInt 1; RInt 3; RDef]]; Update false [(1%nat, URaw (RInt 50))] None]
+    = [[Some 1; Some 50; Some 51]] /\
+  eval_check (cells [Some 1; Some 30; Some 31]) (mkCheck Lt (TCol 1) (TLit 10)) = Some false.
+Proof. repeat split; vm_compute; reflexivity. Qed.
+
+(* t (c0, c1 INT, c2 INT AS (c1 * 2) STORED): INSERT VALUES (1, 1, DEFAULT), (2, 1, 99) stores 99 in the generated column *)
+Lemma explicit_generated_witness :
+  run w_sch2 [] [] [Insert false [[RInt 1; RInt 1; RDef]; [RInt 2; RInt 1; RInt 99]]]
+    = [[Some 1; Some 1; Some 2]; [Some 2; Some 1; Some 99]] /\
+  run w_sch2 [] [] [Insert false [[RInt 2; RInt 1; RInt 99]; [RInt 1; RInt 1; RDef]]] = [].
+Proof. split; vm_compute; reflexivity. Qed.
+
+(* non-vacuity: a typed history with all four statement kinds that stores rows, with a wf schema *)
+Definition w_hist :=
+  [Insert false [[RInt 1; RInt 7; RDef; RDef]; [RInt 2; RDec 26; RNull; RDef]];
+   Update false [(1%nat, UTerm (TAdd (TCol 2) (TLit 10)))] (Some 1);
+   Upsert false [[RInt 2; RInt 5; RInt 1; RDef]; [RInt 3; RInt 6; RInt 2; RDef]] [(1%nat, UTerm (TAdd (TCol 5) (TLit 20)))];
+   Replace [[RInt 1; RInt 9; RInt 3; RDef]]].
 Lemma nonvacuous_example :
-  wf_schema w_sch4 /\
-  Forall (typed_stmt w_sch4) [Insert false [[RInt 1; RInt 7; RDef; RDef]; [RInt 2; RDec 26; RNull; RDef]];
-                              Update false [(1%nat, UTerm (TAdd (TCol 2) (TLit 10)))] (Some 1)] /\
-  run w_sch4 [mkCheck Lt (TCol 2) (TCol 1)] []
-      [Insert false [[RInt 1; RInt 7; RDef; RDef]; [RInt 2; RDec 26; RNull; RDef]];
-       Update false [(1%nat, UTerm (TAdd (TCol 2) (TLit 10)))] (Some 1)]
-    = [[Some 1; Some 14; Some 4; Some 18]; [Some 2; Some 3; None; None]].
+  wf_schema w_sch4 /\ Forall (typed_stmt w_sch4) w_hist /\
+  run w_sch4 [mkCheck Lt (TCol 2) (TCol 1)] [] w_hist
+    = [[Some 1; Some 9; Some 3; Some 12]; [Some 2; Some 25; None; None]; [Some 3; Some 6; Some 2; Some 8]].
 Proof.
   split; [|split].
-  - intros i c e Hs Hg. do 4 (destruct i as [|i]; cbn in Hs; [injection Hs as <-; cbn in Hg; try discriminate|]).
+  - intros i c e Hs Hg. do 4 (destruct i as [|i]; cbn in Hs; [injection Hs as <-; cbn in Hg; destruct Hg as [Hg|Hg]; try discriminate|]).
     + injection Hg as <-. cbn. split; left; lia.
     + destruct i; discriminate.
   - repeat constructor.
